@@ -783,13 +783,27 @@ RVARIANTS = [('display mL / mmol', {'volume_display_unit': 'mL', 'moles_display_
              ('storage uL / mmol', {'moles_storage_unit': 'mmol'})]
 
 
+def solids_only_recipe():
+    """directed: wells that hold only a solid (no volume at all under default densities inf), then a removal on part of them"""
+    q = lambda v, p, b: {'v': v, 'p': p, 'b': b}
+    subs = [s for s in dsl.LIBRARY if s['id'] in (1, 4)]
+    col = {'rect': [[0, 1], [0]]}
+    return {'subs': [dict(s) for s in subs], 'objects': [{'t': 'c', 'name': 1, 'init': [[4, q('100', 'm', 'g')]]},
+                                                         {'t': 'p', 'name': 2, 'rows': 2, 'cols': 3, 'max': q('300', 'u', 'L')}],
+            'prefill': [], 'steps': [{'op': 'transfer', 'src': {'c': 1}, 'dst': {'p': 2, 'r': col}, 'q': q('10', 'm', 'g')},
+                                     {'op': 'remove', 't': {'p': 2, 'r': {'rect': [[0], [0]]}}, 'w': {'s': 4}},
+                                     {'op': 'transfer', 'src': {'c': 1}, 'dst': {'p': 2, 'r': {'rect': [[1], [1, 2]]}}, 'q': q('5', 'm', 'g')},
+                                     {'op': 'remove', 't': {'p': 2, 'r': {'rect': [[0, 1], [0, 1, 2]]}}, 'w': {'k': 'Solid'}}],
+            'stages': [], 'queries': []}
+
+
 def density_variant(chk, gens_queries, ledger_oracle, tag, limit=8):
     """recipes under default densities inf (solids and enzymes occupy no volume), substances made by the library's factories: bake
     against the eager execution of the same steps performed in the same process under that configuration"""
     import histcheck, copy, types
     overrides = {'default_solid_density': float('inf'), 'default_enzyme_density': float('inf')}
     sel = gens_queries[:limit]
-    progs = [copy.deepcopy(rg.prog([])) for rg, qs in sel]
+    progs = [solids_only_recipe()] + [copy.deepcopy(rg.prog([])) for rg, qs in sel]
     for p in progs:
         for sd in p['subs']:
             if sd['kind'] in ('Solid', 'Enzyme'):
